@@ -243,6 +243,9 @@ class Engine(ExprMixin, CallMixin):
                             nxt.append(s2)
                     states = nxt
                 return [('next', None, s) for s in states]
+            if isinstance(v, SRef) and v.cls.ncells == len(tgt.elts):     # unpacking a fixed-length cell list
+                items = [self.wrap(v.cls.fields[str(j)], self.hload(st, v, str(j))) for j in range(v.cls.ncells)]
+                return self.assign(tgt, STuple(items), st)
             if isinstance(v, SVal):      # unpacking an opaque item
                 v = STuple([SVal(st.fresh.const('unpacked', Val)) for _ in tgt.elts])
                 return self.assign(tgt, v, st)
@@ -609,6 +612,11 @@ class Engine(ExprMixin, CallMixin):
             for lab, b in seq.get('needs', []):
                 self.oblige('assert', 'loop@%d: %s' % (line, lab), st, b, node)
         ivar = z3.IntVal(0)
+        if is_for and isinstance(node.target, ast.Name) and node.target.id not in s0.locals:
+            try:   # the loop variable is unbound before the loop: give it an arbitrary value of the item type
+                s0.locals[node.target.id] = self.havoc_value(s0, seq['get'](z3.IntVal(0)), node.target.id)
+            except Exception:
+                pass
 
         def inv_at(s, i, entry):
             c = Ctx(self, s, self.entry_state, self.entry_args,
@@ -646,7 +654,15 @@ class Engine(ExprMixin, CallMixin):
                 item = seq['get'](i)
                 for c1, v1, s1 in self.assign(node.target, item, hs):
                     body_states.append(s1)
-            exit_states = [h.assume(i == seq['n'])]
+            exit_states = []
+            es0 = h.assume(i == seq['n'])
+            # after exhaustion the loop variable keeps the last item (if there was one)
+            for side, es in self.fork(es0, seq['n'] > 0):
+                if side:
+                    for c1, v1, s1 in self.assign(node.target, seq['get'](seq['n'] - 1), es):
+                        exit_states.append(s1)
+                else:
+                    exit_states.append(es)
         else:
             body_states, exit_states = [], []
             for v, s in self.ev(node.test, h):
@@ -799,6 +815,11 @@ class Engine(ExprMixin, CallMixin):
             return dict(status='inapplicable', reason=str(e), obligations=[], sha=sha, dropped=dropped)
         except z3.Z3Exception as e:
             return dict(status='unsupported', reason='z3 sort error: %s' % e, obligations=[], sha=sha, dropped=dropped)
+        except (KeyError, AttributeError, IndexError, TypeError, RecursionError) as e:
+            import traceback
+            return dict(status='unsupported', reason='executor/contract error %s: %s @ %s' % (
+                type(e).__name__, e, traceback.format_exc().strip().splitlines()[-3].strip()[:160]),
+                obligations=[], sha=sha, dropped=dropped)
         return dict(status='ok', obligations=self.pending, sha=sha, dropped=dropped, paths=self.paths,
                     called=sorted(self.called), inlined=sorted(self.inlined))
 
